@@ -29,6 +29,10 @@ def run(tier, seed):
                     if mult == 1:     # ... also when the thread that freed the pages has exited (abandoned segment, visited by non-forced collects)
                         runs.append({"args": ["--c18", pat, "--step", str(step), "--abandoned"], "env": env,
                                      "tag": "d%d.dec%d.m%d.%s.%s.abandoned" % (delay, dec, mult, pat, an)})
+                        # ... and when the thread exited with everything live and the pages are freed afterwards by the main thread (they are released,
+                        # and scheduled for purging, when a non-forced collect looks at the abandoned segment)
+                        runs.append({"args": ["--c18", pat, "--step", str(step), "--abandoned2"], "env": env,
+                                     "tag": "d%d.dec%d.m%d.%s.%s.abandoned2" % (delay, dec, mult, pat, an)})
     if q:     # several small arenas whose purges expire at different times (pinned: the global schedule must not forget the later ones; /repo 1362dd2)
         for delay, dec, pat, extra in ((5, 1, "all", []), (10, 0, "all", []), (10, 1, "huge", ["--midclock"]), (10, 0, "huge", ["--midclock"])):
             step = 2 * (delay + 1) + 2
